@@ -37,6 +37,24 @@ class ModelSim final : public Engine {
     case CstType::function: def = g.FunctionDef(false); break;
     default: def = g.FunctionDef(true); break;
     }
+    // nested iteration over one *stored* lazy value (power set / product kept in the model between evaluations): the shared
+    // element cache of that value is then used by two live iterators at once
+    if ((type == CstType::term || type == CstType::axiom || type == CstType::theorem) && r.Pct(static_cast<int>(c.C("p_nested_lazy", 10)))) {
+      std::vector<std::string> lazy;
+      for (const auto uid : m->List()) { const auto& d = m->GetRS(uid).definition; if (m->GetRS(uid).type == CstType::term && m->GetParse(uid).status == ParsingStatus::VERIFIED && (d.rfind("ℬ(", 0) == 0 || d.find("×") != std::string::npos) && d.find("D{") == std::string::npos) lazy.push_back(m->GetRS(uid).alias); }
+      if (!lazy.empty()) {
+        const std::string g1 = r.Pick(lazy);
+        switch (r.Below(3) + (type == CstType::term ? 0 : 3)) {
+        case 0: def = "D{ξ1∈" + g1 + "|∀σ2∈" + g1 + " (σ2=σ2)}"; break;
+        case 1: def = "D{ξ1∈" + g1 + "|∃σ2∈" + g1 + " (σ2=ξ1)}"; break;
+        case 2: def = "I{ξ1|ξ1:∈" + g1 + ";σ2:∈" + g1 + ";σ2=ξ1}"; break;
+        case 3: def = "∀ξ1∈" + g1 + " ∃σ2∈" + g1 + " (σ2=ξ1)"; break;
+        case 4: def = "∀ξ1,σ2∈" + g1 + " (ξ1=σ2⇒σ2=ξ1)"; break;
+        default: def = "∃ξ1∈" + g1 + " ∀σ2∈" + g1 + " (σ2≠ξ1∨1=1)"; break;
+        }
+        return def;
+      }
+    }
     if (r.Pct(static_cast<int>(c.C("p_mutant", 8)))) def = exprgen::Mutate(r, def, env);
     return def;
   }
@@ -86,7 +104,7 @@ class ModelSim final : public Engine {
 public:
   const char* Name() const override { return "modelsim"; }
   std::vector<std::string> Properties() const override { return { "C11", "C02", "C16", "C10", "C04" }; }
-  uint64_t DefaultRuns(const std::string& f, bool thorough) const override { (void)f; return thorough ? 250000 : 8000; }
+  uint64_t DefaultRuns(const std::string& f, bool thorough) const override { (void)f; return thorough ? 250000 : 12000; }
   unsigned WatchdogSecs() const override { return 4; }
   Cfg GenCfg(Rng& r, const std::string& f, bool) override {
     Cfg c; c["steps"] = r.Range(8, 40); c["max_cst"] = r.Range(5, 12);
@@ -98,7 +116,8 @@ public:
     c["base_size"] = r.Range(0, 4);
     c["observe"] = r.Pct(65) ? 1 : r.Range(2, 4);
     c["w_schema"] = r.Range(2, 6); c["w_data"] = r.Range(2, 8); c["w_calc"] = r.Range(2, 8); c["w_persist"] = r.Range(0, 3); c["w_eval"] = r.Range(0, 3);
-    if (f == "C02") { c["w_calc"] = r.Range(5, 10); c["w_eval"] = r.Range(3, 8); c["p_mutant"] = r.Range(0, 30); }
+    c["p_nested_lazy"] = r.Range(0, 12);
+    if (f == "C02") { c["w_calc"] = r.Range(5, 10); c["w_eval"] = r.Range(3, 8); c["p_mutant"] = r.Range(0, 30); c["p_nested_lazy"] = r.Range(10, 35); }
     if (f == "C16" || f == "C10") { c["w_persist"] = r.Range(3, 8); c["w_data"] = r.Range(4, 10); }
     if (f == "C04") { c["w_persist"] = r.Range(4, 9); c["p_mutant"] = r.Range(10, 40); }
     return c;
